@@ -12,6 +12,7 @@ def P(pkg=".", harness="dastard", race=None, shards=None, shard_timeout=None, go
 PROPS = {
     "C01": P(gomaxprocs=[1, 2, 4, 4]),
     "C02": P(gomaxprocs=[1, 2, 4, 4]),
+    "C03": P(shards={"quick": 16, "thorough": 16}),
     "C05": P(),
     "C06": P(),
     "C20": P(),
